@@ -7,8 +7,11 @@ for id in $IDS; do
   prop=$(python3 -c "import json;print(json.load(open('seeded/$id/meta.json'))['breaks_property'])")
   if ! grep -q "\"property_id\": \"$prop\"" MANIFEST.json; then echo "$id: property $prop has no check yet"; continue; fi
   git -C /repo apply /verif/seeded/$id/patch.diff || { echo "$id: patch does not apply"; continue; }
+  cp evidence/$prop.json /tmp/evidence-$prop.json.keep 2>/dev/null
   out=$(bin/check $prop 2>&1); rc=$?
   git -C /repo checkout -- .
+  # the evidence of a run against a seeded tree must not replace the evidence of the unchanged tree
+  cp /tmp/evidence-$prop.json.keep evidence/$prop.json 2>/dev/null; rm -f /tmp/evidence-$prop.json.keep
   echo "$id -> check $prop rc=$rc :: $(echo "$out" | grep -c '^VIOLATION') violation line(s); $(echo "$out" | grep '^VIOLATION' | head -1)"
 done
 git -C /repo status --short
